@@ -955,3 +955,9 @@ Holmeses, s\
         assert_eq!(rdr.binary_byte_offset(), Some(bytes.len() as u64 - 2));
     }
 }
+
+#[cfg(kani)]
+mod verif_kani {
+    use super::*;
+    include!(concat!(env!("RG_VERIF_KANI_DIR"), "/searcher/line_buffer.rs"));
+}
